@@ -295,6 +295,23 @@ void vw_msg_allocator_free(struct lp_msg *m)
 	msg_allocator_free(m);
 }
 
+/* msg_queue_fini(): whatever is still pending beyond the final GVT is discarded at shutdown */
+void vw_qfini_msg_allocator_free(struct lp_msg *m)
+{
+	struct mrec *r = mr_find(m, 1);
+	if(want("M")) {
+		if(!r->alloc)
+			rs_fail("C06 msg_queue_fini released a buffer that is not allocated, t=%g", m->dest_t);
+		if(r->queued != (int)rid + 1)
+			rs_fail("C06 msg_queue_fini released a message that was not pending in this thread's queue, t=%g", m->dest_t);
+	}
+	if(r->queued)
+		qcount[r->queued - 1]--;
+	r->queued = 0;
+	r->alloc = 0;
+	msg_allocator_free(m);
+}
+
 /* ---- history bookkeeping: which past entries does an LP hold, in order ---- */
 static void hist_mark(struct lp_ctx *lp, int on)
 {
